@@ -8,13 +8,13 @@ FRAG_PRE = ('From Coq Require Import ZArith List Bool.\nRequire Import WV.model.
 FRAG_TYPE = 'box * Z * list (list (Z * Z))'
 
 
-def frag_stream(run, rng, n, tag, feats=fraggen.ALL_FEATS, heights=fraggen.PAGE_HEIGHTS):
+def frag_stream(run, rng, n, tag, feats=fraggen.ALL_FEATS, heights=fraggen.PAGE_HEIGHTS, docgen=None):
     """returns list of (doc, mask) ; doc = dict(html, H, nwords, pages)"""
     docs = []
     for _ in range(n):
-        html, root, H, nw = fraggen.document(rng, feats, heights)
+        html, root, H, nw = docgen(rng) if docgen else fraggen.document(rng, feats, heights)
         docs.append(dict(html=html, root=root, H=H, nwords=nw))
-    outs = common.run_impl('impl_frag', 'render_lines', [{'html': d['html']} for d in docs], limit=60)
+    outs = common.run_impl('impl_frag', 'render_lines_blank', [{'html': d['html']} for d in docs], limit=60)
     cases, kept = [], []
     for d, (st, o) in zip(docs, outs):
         if st == 'timeout':
@@ -24,6 +24,8 @@ def frag_stream(run, rng, n, tag, feats=fraggen.ALL_FEATS, heights=fraggen.PAGE_
             run.fail('render raised %s at %s' % (o['type'], o['site']), {'stream': tag, 'html': d['html'], 'exc': o},
                      signature='crash:%s' % (o['site'],))
             continue
+        d['blank'] = o['blank']
+        o = o['lines']
         try:
             pages = [[(fraggen.unword(w), y) for w, y in p] for p in o]
         except ValueError:
@@ -37,6 +39,51 @@ def frag_stream(run, rng, n, tag, feats=fraggen.ALL_FEATS, heights=fraggen.PAGE_
         kept.append(d)
     masks = common.eval_cases(tag, FRAG_PRE, FRAG_TYPE, cases, 'frag_judge', per_file=150)
     return list(zip(kept, masks))
+
+
+SIDE_VALUES = ('left', 'right', 'recto', 'verso')
+
+
+def judge_blank_pages(doc):
+    """C03 / C04 on the implementation's pages of a document of the model grammar: a blank page (no box at all) is a
+    REQUIRED blank page - between the last word before it and the first word after it (document order) some box
+    boundary carries a break-before / break-after value that names a page side - and it is followed by content.
+    (Lenient on purpose: which of several meeting values wins and the parity are judged by the forced-side clause.)"""
+    events = []
+
+    def walk(b):
+        if b[0] == 'lines':
+            events.extend(('w', w) for w in b[1])
+            return
+        events.append(('v', b[1].get('bf', 'auto')))
+        for k in b[2]:
+            walk(k)
+        events.append(('v', b[1].get('ba', 'auto')))
+    walk(doc['root'])
+    index = {e[1]: i for i, e in enumerate(events) if e[0] == 'w'}
+    pages = doc['pages']
+    bad = []
+    blank = doc.get('blank') or [False] * len(pages)
+    gaps = {}
+    for pi, pg in enumerate(pages):
+        if not blank[pi]:
+            continue            # a page holding boxes (possibly empty ones) is not a blank page
+        after = next((p for p in pages[pi + 1:] if p), None)
+        if pi + 1 >= len(pages) or blank[pi + 1]:
+            bad.append(('blank-page-not-followed-by-content', dict(page=pi)))
+            continue
+        before = next((p for p in reversed(pages[:pi]) if p), None)
+        lo = index.get(before[-1][0], -1) if before else -1
+        hi = index.get(after[0][0], len(events)) if after else len(events)
+        nside = sum(1 for e in events[lo + 1:hi] if e[0] == 'v' and e[1] in SIDE_VALUES)
+        gaps[(lo, hi)] = gaps.get((lo, hi), 0) + 1
+        if gaps[(lo, hi)] > nside > 0:
+            # every value naming a side asks for one blank page at most
+            bad.append(('more-blank-pages-than-side-breaks', dict(page=pi, blank=gaps[(lo, hi)], side_values=nside)))
+        if nside == 0:
+            bad.append(('blank-page-not-required', dict(page=pi, before=before[-1][0] if before else None,
+                                                        after=after[0][0] if after else None)))
+    return bad
 
 
 def doc_key(d):
